@@ -1761,13 +1761,13 @@ def cases(ctx):
 
 
 class Findings(list):
-    """(mechanism key, message) pairs.  sfx_fn (optional) names the history class the finding was made in: a query
-    made after close() / after leaving a `with` block on this object gets '/after-close', a query made while another
-    DebFile object is alive gets '/several-readers-alive' - so that a witness says which class of history it needs"""
-    sfx_fn = None
+    """(mechanism key, message) pairs.  hist_fn (optional) describes the history the finding was made in (close steps
+    made on this object before, other DebFile objects alive); it goes into the MESSAGE - the key stays the mechanism,
+    so that the shrinker can drop the close steps / the other readers when the finding does not need them"""
+    hist_fn = None
 
     def add(self, key, msg):
-        self.append((key + (self.sfx_fn() if self.sfx_fn else ''), msg))
+        self.append((key, msg + (self.hist_fn() if self.hist_fn else '')))
 
 
 # --- file objects with a minimal interface ----------------------------------------------------------------------
@@ -1935,10 +1935,15 @@ def pkg_steps(ctx, case, stats, out, role=None):
     def others_alive():
         return role['alive'][0] if role else 0
 
-    def history_sfx():
-        return ('/after-close' if hist['closed'] else '') + ('/several-readers-alive' if others_alive() else '')
+    def history_text():
+        bits = []
+        if hist['closed']:
+            bits.append('%d close step(s) %r were made on this object before' % (hist['closed'], hist.get('hows')))
+        if others_alive():
+            bits.append('%d other DebFile object(s) alive' % others_alive())
+        return (' [' + '; '.join(bits) + ']') if bits else ''
 
-    out.sfx_fn = history_sfx
+    out.hist_fn = history_text
 
     def mon(name, n=1):
         if stats is not None:
@@ -2381,15 +2386,7 @@ def pkg_steps(ctx, case, stats, out, role=None):
                 usfx = use_sfx(fam)
                 calls[fam] = calls.get(fam, 0) + 1
             out.add('%s-raises/%s%s%s' % (what, type(e).__name__, sfx if kind in ('control', 'ctlraw', 'ctltext') else '', usfx),
-                    '%r raised %r%s' % (op, e, history_text()))
-
-    def history_text():
-        bits = []
-        if hist['closed']:
-            bits.append('%d close step(s) %r were made on this object before' % (hist['closed'], hist.get('hows')))
-        if others_alive():
-            bits.append('%d other DebFile object(s) alive' % others_alive())
-        return (' [' + '; '.join(bits) + ']') if bits else ''
+                    '%r raised %r' % (op, e))
 
     def do_close(how):
         """close()-family step; the object is used again afterwards.  Established on the unchanged tree for fileobj=
@@ -2446,7 +2443,7 @@ def pkg_steps(ctx, case, stats, out, role=None):
             hist['closed'] += 1
             hist.setdefault('hows', []).append(how)
         except Exception as e:      # noqa - close() / with must not raise on an object that is in order
-            out.add('close-raises/%s/mid-history' % type(e).__name__, 'close step %r raised %r%s' % (how, e, history_text()))
+            out.add('close-raises/%s/mid-history' % type(e).__name__, 'close step %r raised %r' % (how, e))
     yield 'ops-done'
     # results the caller kept without changing them: still the packed content?
     for fam, obj, n in held:
@@ -2918,6 +2915,9 @@ def shrink_set(ctx, case, key):
     return cur
 
 
+MAX_SHRINKS = 16        # per shard: later witnesses are recorded as they were generated (bounds the time of a failing run)
+
+
 def report(ctx, case, findings, shrinker):
     seen = set()
     for key, msg in findings:
@@ -2925,7 +2925,9 @@ def report(ctx, case, findings, shrinker):
             continue
         seen.add(key)
         small = case
-        if ctx.viol_count[key] < 3 and not ctx.replay:
+        shrinks = getattr(ctx, '_c07_shrinks', 0)
+        if ctx.viol_count[key] < 3 and not ctx.replay and shrinks < MAX_SHRINKS:
+            ctx._c07_shrinks = shrinks + 1
             try:
                 small = shrinker(ctx, case, key)
                 if small is not case:
@@ -2973,62 +2975,61 @@ def run_case(ctx, case):
 
 def describe_pkg(ctx, case):
     """workload bookkeeping of one package description (counters that do not depend on what the library answers)"""
-    if True:
-        ctx.extra.setdefault('config_pairs_covered', set())
-        if not isinstance(ctx.extra['config_pairs_covered'], set):
-            ctx.extra['config_pairs_covered'] = set(ctx.extra['config_pairs_covered'])
-        ctx.extra['config_pairs_covered'].add('%s/%s' % (case['cc'] or 'none', case['dc'] or 'none'))
-        for n, _ in case['files']:
-            comps = n.split('/')
-            if any(c.startswith('.') for c in comps):
-                ctx.count('name:leading-dot')
-            if n.startswith('.'):
-                ctx.count('name:leading-dot-first-component')
-            if ' ' in n:
-                ctx.count('name:space')
-            if len(comps) > 1:
-                ctx.count('name:subdir')
-            if len(n.encode('utf-8')) > 100:
-                ctx.count('name:longer-than-100')
-            if not n.isascii():
-                ctx.count('name:non-ascii')
-        for part, names in (('data', [n for n, _ in case['files']]),
-                            ('control', [n for n, _ in case.get('extra', [])])):
-            for n in names:
-                for cls in name_classes(n):
-                    if cls != 'trailing-dot' or part == 'control':
-                        ctx.count('edge:%s:%s' % (part, cls))
-                if n in EDGE:
-                    ctx.count('edge:%s:listed-name' % part)
-                    ctx.extra.setdefault('edge_names_in_%s_part' % part, set()).add(n)
-        reuse = case.get('reuse') or []
-        if reuse:
-            ctx.count('reuse:pkg')
-            if any(m for _, _, _, m in reuse):
-                ctx.count('reuse:pkg:with-caller-change')
-            for fam, route, enc, muts in reuse:
-                ctx.count('reuse:planned:%s' % fam)
-                ctx.count('reuse:planned-route:%s' % route)
-                if muts:
-                    ctx.count('reuse:planned-change:%s' % fam)
-        ctx.count('files=%d' % min(len(case['files']), 8))
-        ctx.count('scripts=%d' % len(case['scripts']))
-        scan = brk_scan(case['fields'])
-        if scan:
-            ctx.count('brk:pkg')
-            if not case.get('ctl_final_nl', True) and any(
-                    fi == len(case['fields']) - 1 and li == case['fields'][fi][1].count('\n') for fi, li, _, _ in scan):
-                ctx.count('brk:line:last-without-final-newline')
-            for fi, li, name, place in scan:
-                ctx.count('brk:char:' + name)
-                ctx.count('brk:place:' + place)
-                ctx.count('brk:line:' + ('continuation' if li else
-                                         'first-of-multi-line' if '\n' in case['fields'][fi][1] else 'single-line'))
-        closes = case.get('close') or []
-        if closes:
-            ctx.count('close:pkg')
-            ctx.count('close:pkg:' + open_class(case.get('open', 'fileobj')))
-            ctx.count('close:pkg:steps=%d' % min(len(closes), 4))
+    ctx.extra.setdefault('config_pairs_covered', set())
+    if not isinstance(ctx.extra['config_pairs_covered'], set):
+        ctx.extra['config_pairs_covered'] = set(ctx.extra['config_pairs_covered'])
+    ctx.extra['config_pairs_covered'].add('%s/%s' % (case['cc'] or 'none', case['dc'] or 'none'))
+    for n, _ in case['files']:
+        comps = n.split('/')
+        if any(c.startswith('.') for c in comps):
+            ctx.count('name:leading-dot')
+        if n.startswith('.'):
+            ctx.count('name:leading-dot-first-component')
+        if ' ' in n:
+            ctx.count('name:space')
+        if len(comps) > 1:
+            ctx.count('name:subdir')
+        if len(n.encode('utf-8')) > 100:
+            ctx.count('name:longer-than-100')
+        if not n.isascii():
+            ctx.count('name:non-ascii')
+    for part, names in (('data', [n for n, _ in case['files']]),
+                        ('control', [n for n, _ in case.get('extra', [])])):
+        for n in names:
+            for cls in name_classes(n):
+                if cls != 'trailing-dot' or part == 'control':
+                    ctx.count('edge:%s:%s' % (part, cls))
+            if n in EDGE:
+                ctx.count('edge:%s:listed-name' % part)
+                ctx.extra.setdefault('edge_names_in_%s_part' % part, set()).add(n)
+    reuse = case.get('reuse') or []
+    if reuse:
+        ctx.count('reuse:pkg')
+        if any(m for _, _, _, m in reuse):
+            ctx.count('reuse:pkg:with-caller-change')
+        for fam, route, enc, muts in reuse:
+            ctx.count('reuse:planned:%s' % fam)
+            ctx.count('reuse:planned-route:%s' % route)
+            if muts:
+                ctx.count('reuse:planned-change:%s' % fam)
+    ctx.count('files=%d' % min(len(case['files']), 8))
+    ctx.count('scripts=%d' % len(case['scripts']))
+    scan = brk_scan(case['fields'])
+    if scan:
+        ctx.count('brk:pkg')
+        if not case.get('ctl_final_nl', True) and any(
+                fi == len(case['fields']) - 1 and li == case['fields'][fi][1].count('\n') for fi, li, _, _ in scan):
+            ctx.count('brk:line:last-without-final-newline')
+        for fi, li, name, place in scan:
+            ctx.count('brk:char:' + name)
+            ctx.count('brk:place:' + place)
+            ctx.count('brk:line:' + ('continuation' if li else
+                                     'first-of-multi-line' if '\n' in case['fields'][fi][1] else 'single-line'))
+    closes = case.get('close') or []
+    if closes:
+        ctx.count('close:pkg')
+        ctx.count('close:pkg:' + open_class(case.get('open', 'fileobj')))
+        ctx.count('close:pkg:steps=%d' % min(len(closes), 4))
 
 
 def dpkg_sanity(ctx, case):
